@@ -15,6 +15,10 @@ class Spin(BaseException):
     counted in virtual steps, no wall clock)."""
 
 
+class Deadline(BaseException):
+    """a deadline / cancellation raised INTO the running call by the caller's framework (not an Exception)."""
+
+
 class SimSocket:
     SPIN_LIMIT = 2000
 
@@ -142,6 +146,11 @@ class SimSocket:
             self.tail = "eof"
             self.log.append(("recv", n, "reset"))
             raise ConnectionResetError(104, "Connection reset by peer")
+        if ev[0] == "interrupt":
+            # the caller's own interruption lands in this read: KeyboardInterrupt / SystemExit / a BaseException of a
+            # green-thread or deadline library (gevent.Timeout, asyncio.CancelledError are BaseExceptions)
+            self.log.append(("recv", n, "interrupt:" + ev[1]))
+            raise {"ki": KeyboardInterrupt, "exit": SystemExit, "deadline": Deadline}[ev[1]]()
         raise AssertionError(ev)
 
     def send(self, data):
